@@ -1,6 +1,6 @@
 (* C04 — resolution is log-spaced and monotone; averaging honours the overlap (statements only) *)
 From Coq Require Import ZArith List Reals.
-From SK Require Import Arith Sched SchedThms SchedThms2 SchedMono SchedTerm.
+From SK Require Import Arith Sched SchedThms SchedThms2 SchedMono SchedMonoVec SchedTerm.
 Import ListNotations.
 
 (* along every iterative LTF/LPSD plan (any admissible configuration, logfact > 0, x**0.5 the real square root):
@@ -9,6 +9,12 @@ Theorem C04_plan_monotone : forall fuel (c : cfg RA), admissible c -> (0 < clogf
   ltf_loop RA sqrt_oracle fuel c fi = Ok bs -> plan_monotone bs.
 Proof. exact ltf_plan_monotone. Qed.
 Print Assumptions C04_plan_monotone.
+(* the same for the vectorised planner, for any sorted positive lookup grid (np.sqrt the real square root) *)
+Theorem C04_vectorized_plan_monotone : forall fuel (c : cfg RA) (grid : list R), admissible c -> (0 < clogfact c)%R ->
+  sorted_grid grid -> Forall (fun g => (0 < g)%R) grid ->
+  forall f bs, vec_walk RA sqrt fuel c grid f = Ok bs -> plan_monotone bs.
+Proof. exact vec_plan_monotone. Qed.
+Print Assumptions C04_vectorized_plan_monotone.
 Theorem C04_step_monotone : forall (c : cfg RA), admissible c -> (0 < clogfact c)%R -> forall f1 f2 b1 b2, (0 < f1)%R -> (f1 <= f2)%R ->
   ltf_step RA sqrt_oracle c f1 = Some b1 -> ltf_step RA sqrt_oracle c f2 = Some b2 -> (bL b2 <= bL b1)%Z /\ (bK b1 <= bK b2)%Z.
 Proof. exact ltf_step_monotone. Qed.
